@@ -3,7 +3,7 @@ import os, sys, json, subprocess
 from vlib import *
 
 PROP = 'C20'
-IMPORTS = 'Model.Ids Corr.C20'
+IMPORTS = 'Base.F32 Model.Ops Model.Expr Model.Ids Model.IdsExpr Corr.C20'
 KINDS = ('ANM', 'ECL', 'STD', 'MSG', 'SPARSE')
 
 def run_parallel(v, jobs, seed, timeout=1800):
@@ -45,7 +45,7 @@ def main(argv):
     tier, seed, replay = tier_and_seed(argv)
     v = Verdict(PROP, tier, seed)
     proofs_ok, h_ok, unrec = standard_proof_steps(
-        v, PROP, ['ids'], ['theories/Props/C20.vo'], ['c20', 'truth-cli'],
+        v, PROP, ['ids', 'optable'], ['theories/Props/C20.vo'], ['c20', 'truth-cli'],
         corr_targets=['theories/Corr/C20.vo'])
 
     cases, texts, kinds = [], [], []
@@ -112,7 +112,7 @@ def main(argv):
     v.coverage.update({
         'evaluations': len(cases),
         'distinct_nontrivial': distinct_count([c for c in cases if 'IOk' in c or c.startswith('KSparse')]),
-        'rule': 'seeded layouts compiled with truth-cli and read back by the harness\'s own byte walkers: ANM (TH12): 1..4 entries, 0..4 sprites each over 8 names (duplicates across entries), explicit ids that repeat/decrease/are constant expressions/sit at i32 and u32 boundaries, 1..4 scripts with optional explicit numbers, uses `ins_3(sprite)`, `ins_88(script)` before and after the definitions, undefined and clashing names; MSG (TH06/TH10): sparse tables with default, table_len, shared/unused/undefined scripts, flags, plus decompile+compile and the decompiler\'s printed sparse table; old ECL (TH07): 1..5 subs, `ins_41(sub)` and timeline arg0 uses, timelines with explicit/automatic/mixed/invalid indices; STD (TH12): objects and instances. distinct = distinct case terms; non-trivial = the compile produced a file (or a sparsify case)',
+        'rule': 'seeded layouts compiled with truth-cli and read back by the harness\'s own byte walkers: ANM (TH12): `const` items (forward references, sigils), 1..4 entries, 0..4 sprites each over 8 names (duplicates across entries), explicit ids that are literals (repeating/decreasing/i32 and u32 boundaries) or generated constant expressions (arithmetic, comparisons, bitwise, shifts, logical, unary, ternaries with negative/zero/positive conditions, int()/float() casts, $/% sigils), modes normal / clash (one name defined 2..4 times with every agree-differ pattern) / dupscript (a script name twice, within or across entries, with references to later scripts) / chaos (undefined and clashing names), 1..5 scripts with explicit numbers incl. i32::MAX, uses `ins_3(sprite)`, `ins_102(sprite, n)`, `ins_88/ins_95(script)`, `ins_96(script, f, f)` before and after the definitions; MSG (TH06/TH10): sparse tables with default, table_len, shared/unused/undefined scripts, flags, plus decompile+compile and the decompiler\'s printed sparse table; old ECL (TH07): 1..5 subs, `ins_41(sub)` and timeline arg0 uses, timelines with explicit/automatic/mixed/invalid indices; STD (TH12): objects and instances. distinct = distinct case terms; non-trivial = the compile produced a file (or a sparsify case)',
         'traces_validated_against_impl': len(cases),
         'case_kinds': hist,
         'generator_stats': stats,
@@ -123,7 +123,7 @@ def main(argv):
     return v.finish(
         level='proof',
         checker_cmd='python3 gen/ids.py ; cd coq && make theories/Corr/C20.vo theories/Props/C20.vo ; coqc work/audit_C20.v (Print Assumptions) ; harness/target/debug/c20 run ; coqc work/cases_C20/*.v',
-        trusted_base=['modelled, not verified: Model/Ids.v restates gather_sprite_id_exprs / sequential_int_exprs / write_entry (anm), densify / sparsify_script_table / write_msg (msg), get_and_validate_timeline_indices (ecl_06), write_instance (std) by hand; gen/ids.py reads the start values and steps out of the source and matches the statement shapes',
+        trusted_base=['id expressions are evaluated by the C11 models (Model/Expr.v simplify = const_simplify for the id written, ceval = the DFS const evaluator for the value of the name) over the regenerated operator table; their agreement is C20_id_expr_evaluators_agree (from the C11 theorems)', 'modelled, not verified: Model/Ids.v, Model/IdsExpr.v restate gather_sprite_id_exprs / sequential_int_exprs / write_entry (anm), densify / sparsify_script_table / write_msg (msg), get_and_validate_timeline_indices (ecl_06), write_instance (std) by hand; gen/ids.py reads the start values and steps out of the source and matches the statement shapes',
                       'the constant evaluation of `<id expr> + i` is the wrapping i32 addition proved for C11',
                       'the harness\'s own walkers over ANM v7, MSG, TH07 ECL/timeline and TH12 STD files'],
         assumptions=['sprite ids: the theorem is conditional on the writer succeeding; with the wrapping writer of the current tree (fix b32efe8) it always does (C20_sprite_writer_is_total); for a non-wrapping writer C20_sprite_ids_below_bound_no_overflow gives the guard',
